@@ -207,6 +207,7 @@ struct RunCfg {
   int threads; // as passed (0 = hardware_concurrency -> 3)
   int eff_threads;
   uint32_t true_mask;
+  std::vector<int> true_extra; // additional true positions for ranges longer than 32 (thorough tier)
   int progress; // 0 nullptr, 1 recorder, 2 default argument
   int cb_yields;
   int offset_kind; // 0: 0, 1: 1, 2: 100, 3: near the type's maximum
@@ -237,8 +238,9 @@ void run_typed(const RunCfg& c, const char* type_name) {
   string cfg_key = string(c.func == 0 ? "range" : (c.func == 1 ? "blocks" : "multi"));
 
   std::set<uint64_t> true_set;
-  for (int i = 0; i < c.len; i++)
+  for (int i = 0; i < c.len && i < 32; i++)
     if (c.true_mask & (1u << i)) true_set.insert(bits<IntT>((IntT)(start + (IntT)i)));
+  for (int i : c.true_extra) true_set.insert(bits<IntT>((IntT)(start + (IntT)i)));
 
   std::function<bool(IntT, size_t)> cb = [&](IntT v, size_t thread_num) -> bool {
     vpar::callback_enter();
@@ -365,6 +367,7 @@ void run_typed(const RunCfg& c, const char* type_name) {
     if (trues >= 2) VS_PROBE("two_callbacks_returned_true");
   }
   if (wraps) VS_PROBE("end_value_near_type_max");
+  if (c.len > 12) VS_PROBE("long_range_many_threads");
   {
     std::set<int> tasks_used;
     for (auto& call : calls) tasks_used.insert(call.task);
@@ -380,9 +383,11 @@ static void run() {
   c.func = choose(3, "func");
   int type = choose(6, "type");
   c.len = choose(thorough ? 13 : 7, "len");
+  bool large = thorough && choose(16, "large") == 15; // occasionally a long range with many threads
+  if (large) c.len = 13 + choose(108, "len.large");
   c.offset_kind = choose(4, "offset");
   c.slack = choose(9, "slack");
-  c.threads = choose(5, "threads"); // 0..4
+  c.threads = large ? 1 + choose(8, "threads.large") : choose(5, "threads"); // 0..4 (1..8 for long ranges)
   c.eff_threads = c.threads == 0 ? 3 : c.threads;
   c.block = 1;
   c.block_divides = true;
@@ -404,7 +409,13 @@ static void run() {
     if (c.block_divides) c.block = divisors[choose(divisors.size(), "block")];
   }
   c.true_mask = 0;
-  if (c.len > 0 && choose(2, "true.any")) c.true_mask = 1 + choose((1u << c.len) - 1, "true.mask");
+  if (c.len > 0 && choose(2, "true.any")) {
+    if (c.len <= 12) {
+      c.true_mask = 1 + choose((1u << c.len) - 1, "true.mask");
+    } else {
+      for (unsigned i = 0, n = 1 + choose(3, "true.count"); i < n; i++) c.true_extra.push_back(choose(c.len, "true.pos"));
+    }
+  }
   c.progress = choose(3, "progress");
   c.cb_yields = choose(3, "cb_yields");
   if (c.func == 2 && c.threads == 0) {
@@ -417,7 +428,7 @@ static void run() {
   sc.starve_victim = 1 + choose(std::max(c.eff_threads, 1), "sched.victim");
   sc.quantum = 1 + choose(4, "sched.quantum");
   sc.wake_early_den = (uint32_t)pick({0, 16, 4}, "sched.timer_early_rate");
-  sc.step_budget = 30000;
+  sc.step_budget = large ? 300000 : 30000;
   vshim::g_flags = vshim::RunFlags();
   vpar::reset(sc);
   if (sc.strategy != vpar::FIRST && c.eff_threads > 1 && c.len > 0) mark_nontrivial();
@@ -448,17 +459,17 @@ int main(int argc, char** argv) {
 #ifdef VSIM_TSAN_BUILD
   e.name = "sim-par-tsan";
   e.quick_runs = 60000;
-  e.thorough_runs = 1500000;
+  e.thorough_runs = 1000000;
 #else
   e.name = "sim-par";
   e.quick_runs = 200000;
-  e.thorough_runs = 8000000;
+  e.thorough_runs = 3000000;
 #endif
   e.run = run;
   e.quick_cap_s = 120;
   e.thorough_cap_s = 1500;
   e.rule =
-      "one run = one configuration (function of the three, IntT of six, range length 0..6 [thorough 0..12] at offset 0/1/100/near the type's maximum, block size, "
+      "one run = one configuration (function of the three, IntT of six, range length 0..6 [thorough 0..12, occasionally 13..120 with up to 8 threads] at offset 0/1/100/near the type's maximum, block size, "
       "1..4 threads or 0=hardware_concurrency, set of values whose callback returns true, progress function nullptr/recorder/default) executed under one seeded "
       "schedule (strategy first/uniform/PCT/starve/round-robin; a scheduling point before every atomic operation, at thread start, join, sleep and inside the "
       "callback; progress timer may fire early); distinct = distinct hash of (configuration, sequence of (operation, from-task, to-task)); non-trivial = more than "
